@@ -520,7 +520,7 @@ class TraitInstr:
         cv, vv = env.pick(self.vars)
         if cv is not None:
             init = some(VecV([b.mk('attr::InitData', ident=b.ident(n), _colon=Opq('Colon', 0), action=toks(a, '%s:var%d' % (self.tag, k))) for k, (n, a) in enumerate(cv)]))
-        elif isinstance(self.vars, Ch):
+        elif isinstance(self.vars, Ch) and not self.vars.fork:
             alts = [d for d in self.vars.dom if d is not None]
             if len(alts) != 1:
                 raise Unsupported('spec: symbolic vars needs exactly one alternative')
